@@ -71,6 +71,22 @@ CHECKS = {
               "between a cycle amplitude and a bin edge are not reachable through filtered random signals."),
         technique="TLA+ pool model (TLC, all interleavings + liveness) + schedule forcing through a hook + trace membership validation",
     ),
+    "C18": dict(
+        cat="model_checking",
+        text=("specs/Uset.tla: every assignment of the 8 base sets to K=3 DOF slots (512); TLC checks OneBase, the disjoint-union "
+              "lattice identities and PVLaws and exports the expected partition vector or refusal for all 22x22 (major, minor) set "
+              "expressions; replayed exhaustively into make_uset / addgrid (6-letter strings) / mksetpv (names and bit masks), "
+              "exception <=> refusal; mkusetmask's bit table is bound by membership of every base set in every named set. "
+              "specs/Locate.tla: defining equations of mkdofpv/expanddof (2-D id/component requests, 1-D ids, strict/non-strict, "
+              "DataFrame and ndarray tables) and find_duplicates, flippv, index2bool, index2slice, find_subseq, find_vals, "
+              "mat_intersect (vectors and matrices, keep 0/1/2), list_intersect, merge_lists for EVERY query over sequences up to "
+              "length 3 over 0..2 (thorough: 4 over 0..3); 8.9k queries replayed, admissible sets where the code may choose."),
+        ref="4/C18",
+        note=("Trusted: TLC and the two specs' definitions (independent set-theoretic definitions, not the code's searchsorted/bit tricks). "
+              "User sets u1..u6 and float tolerances of find_duplicates/find_unique are not covered. A genuine defect found here was "
+              "repaired (find_subseq with a longer subsequence, fix: f44d712)."),
+        technique="TLA+ case enumeration with declarative definitions (TLC) + exhaustive replay of every exported case",
+    ),
 }
 
 NOT_YET = {}
